@@ -1207,6 +1207,8 @@ func replay(c *core.Ctx) {
 		k.filesCase(cs.Seq)
 	case "after-failed-write":
 		k.afterFailedWrite()
+	case "after-failed-read":
+		k.afterFailedRead()
 	default:
 		c.HarnessError("unknown case kind %q", cs.Kind)
 	}
